@@ -47,9 +47,44 @@ def _target_writes(t: ast.AST, op: str, stmt: ast.AST, func: FuncInfo) -> Iterat
                 yield Write(b, v.attr, "delitem" if op == "del" else "subscript", stmt, func)
 
 
+def _container_aliases(func: FuncInfo):
+    """Locals that name a container attribute (``nodes = self._active_state_nodes``, assigned exactly once): mutating the local
+    mutates the attribute."""
+    stores = {}
+    for n in own_nodes(func.node):
+        if isinstance(n, ast.Name) and isinstance(n.ctx, (ast.Store, ast.Del)):
+            stores[n.id] = stores.get(n.id, 0) + 1
+    out = {}
+    for n in own_nodes(func.node):
+        tg, val = None, None
+        if isinstance(n, ast.Assign) and len(n.targets) == 1 and isinstance(n.targets[0], ast.Name):
+            tg, val = n.targets[0].id, n.value
+        elif isinstance(n, ast.AnnAssign) and isinstance(n.target, ast.Name) and n.value is not None:
+            tg, val = n.target.id, n.value
+        if tg is None or stores.get(tg, 0) != 1 or tg in func.params:
+            continue
+        if isinstance(val, ast.Attribute) and dotted(val.value) is not None:
+            out[tg] = (dotted(val.value), val.attr)
+    return out
+
+
 def attr_writes(func: FuncInfo) -> List[Write]:
     out: List[Write] = []
+    aliases = _container_aliases(func)
     for n in own_nodes(func.node):
+        if aliases:
+            # mutation through a local alias of the container
+            if isinstance(n, ast.Call) and isinstance(n.func, ast.Attribute) and n.func.attr in MUTATORS and isinstance(n.func.value, ast.Name) \
+                    and n.func.value.id in aliases:
+                b, a = aliases[n.func.value.id]
+                out.append(Write(b, a, "call:" + n.func.attr, n, func))
+                continue
+            if isinstance(n, (ast.Assign, ast.AugAssign, ast.Delete)):
+                tgts = n.targets if isinstance(n, (ast.Assign, ast.Delete)) else [n.target]
+                for t in tgts:
+                    if isinstance(t, ast.Subscript) and isinstance(t.value, ast.Name) and t.value.id in aliases:
+                        b, a = aliases[t.value.id]
+                        out.append(Write(b, a, "delitem" if isinstance(n, ast.Delete) else "subscript", n, func))
         if isinstance(n, ast.Assign):
             for t in n.targets:
                 out.extend(_target_writes(t, "assign", n, func))
